@@ -115,6 +115,32 @@ func (g *histGen) mod(t *rapid.T, si int, seq uint32, ev *Ev) (model.Op, bool) {
 		}
 		op.UpdFARs = []model.FAR{nf}
 		s.fars[i] = nf
+		if rapid.IntRange(0, 2).Draw(t, "twofars") == 0 {
+			// a second Update FAR in the same message: another rule of the session, which states fewer fields than
+			// the first one (an uplink rule has no Outer Header Creation) - each Update FAR stands for itself
+			var others []int
+			for j := range s.fars {
+				if j != i {
+					others = append(others, j)
+				}
+			}
+			if len(others) > 0 {
+				j := others[rapid.IntRange(0, len(others)-1).Draw(t, "far2i")]
+				var nf2 model.FAR
+				if s.fars[j].ID%2 == 1 {
+					nf2 = model.FAR{ID: s.fars[j].ID, Action: rapid.SampledFrom([]uint8{model.ActFORW, model.ActDROP}).Draw(t, "ulaction2"), HasFwd: true, DstIf: model.IfCore}
+				} else {
+					nf2 = model.FAR{ID: s.fars[j].ID, Action: rapid.SampledFrom([]uint8{model.ActDROP, model.ActBUFF | model.ActNOCP}).Draw(t, "dlaction2"), HasFwd: true, DstIf: model.IfAccess}
+				}
+				s.fars[j] = nf2
+				if rapid.Bool().Draw(t, "far2first") {
+					op.UpdFARs = []model.FAR{nf2, nf}
+				} else {
+					op.UpdFARs = []model.FAR{nf, nf2}
+				}
+				ev.Label("mod/two-update-fars")
+			}
+		}
 	case "updqer":
 		if len(s.qers) == 0 {
 			return op, false
